@@ -1,4 +1,10 @@
 """C06 check configuration (see lib/runner.py for the meaning of the keys)."""
+import os
+
+# which of fixes/C06-F3/F4/F5.diff the tree under test contains: a Coq term of type `fixes`
+# (no_fix | all_fix | {| fix_F3 := ..; fix_F4 := ..; fix_F5 := .. |}).  VERIF_C06_FIXES overrides it for trying the
+# candidate repairs in a scratch worktree.
+_FIXES = os.environ.get("VERIF_C06_FIXES", "no_fix")
 
 P = {
     "id": "C06",
@@ -12,7 +18,7 @@ P = {
     "streams": [{
         "name": "history", "pkg": "./internal/rules", "test": "TestVerifC06",
         "overlay": {"internal/rules/zz_verif_c06_test.go": "c06/c06_test.go"},
-        "eval_module": "Run.Eval_C06", "check_term": "check false no_fix",
+        "eval_module": "Run.Eval_C06", "check_term": "check false (%s)" % _FIXES,
         "n_quick": 1200, "n_thorough": 30000, "shard": 40,
         "findings": {1: "C06-F1", 2: "C06-F2", 3: "C06-F3", 4: "C06-F4", 5: "C06-F5", 6: "C06-F6"},
     }],
